@@ -412,8 +412,13 @@ def handler(payload):
         return out
 
     def snap(regs):
-        """raw value of every top-level register and sub-register"""
-        return [[r.get_value(True)] + [s.get_value(True) for s in r.sub_regs] for r in regs]
+        """raw value of every top-level register followed by its sub-registers, width/8 bytes big endian each (hex)"""
+        out = b""
+        for r in regs:
+            out += r.get_value(True).to_bytes(r.width // 8, "big")
+            for s in r.sub_regs:
+                out += s.get_value(True).to_bytes(s.width // 8, "big")
+        return out.hex()
 
     def g(fn, seconds=60):
         r = guarded(fn, seconds=seconds)
